@@ -285,11 +285,16 @@ def scrub_op(op):
 
 def make_instance(rnd, cast, ctx, tries=12):
     cls = ctx.classes[cast["name"]]
+    fields = ctx.all_fields(cast["name"])
+    view = cast
+    if cast.get("base"):
+        # inherited fields count: generate keyword arguments over all of them, required as the real class resolves it
+        view = dict(cast, fields=fields, required=ctx.resolved(cast["name"])["required"])
     for _ in range(tries):
-        kw = S.gen_kwargs(rnd, cast, ctx)
-        hk = cast.get("hook")
+        kw = S.gen_kwargs(rnd, view, ctx)
+        hk = ctx.hook_of(cast["name"])
         if hk and hk[0] == "set" and not any(k == hk[1] for k, _ in kw):
-            fd = [f for f in cast["fields"] if f["name"] == hk[1]][0]
+            fd = [f for f in fields if f["name"] == hk[1]][0]
             kw.append((fd["name"], G.gen_valid(rnd, fd["field"], ctx.instances)))
         kw = [(k, scrub(v)) for k, v in kw]
         try:
@@ -513,6 +518,8 @@ class History:
         self.steps = []             # dicts: op, out, extra, post (reified state or None if unchanged)
         self.py_findings = []       # (step index, key, what)
         self.cut = False
+        self.origin = "ctor"        # how the starting instance was obtained from the constructed one
+        self.keep = None
 
 
 def field_cast(cast_fields, name):
@@ -617,7 +624,7 @@ def closing_ops(rnd, x, fields, ctx, tables):
     return out
 
 
-def run_history(rnd, cast, ctx, tables, nops, mode, ops=None, kwargs=None, safe_only=False):
+def run_history(rnd, cast, ctx, tables, nops, mode, ops=None, kwargs=None, safe_only=False, origin=None):
     """Generates (or, when ops is given, replays) a history on a fresh valid instance."""
     cls = ctx.classes[cast["name"]]
     fields = ctx.all_fields(cast["name"])
@@ -633,6 +640,19 @@ def run_history(rnd, cast, ctx, tables, nops, mode, ops=None, kwargs=None, safe_
         except Exception:  # noqa
             return None
     h = History(cast, kwargs, mode)
+    if origin is None:
+        origin = rnd.choice(ORIGINS) if (rnd is not None and ops is None) else "ctor"
+    if origin != "ctor":
+        x0 = x
+        try:
+            y = derive(x0, origin)
+            if type(y) is not type(x0) or canon(reify_state(y)) != canon(reify_state(x0)) or not (y == x0):
+                raise ValueError("the copy differs")      # C11's subject, not C03's: start from the constructed one
+            x = y
+            h.keep = x0          # the original stays alive: a wrapper of the copy bound to it would write there
+        except Exception:  # noqa
+            origin = "ctor"
+    h.origin = origin
     h.init = reify_state(x)
     handles = {} if mode == "reuse" else None
     i = 0
@@ -731,6 +751,27 @@ def nf_reason(f, stored):
     return "other"
 
 
+def hook_ok_py(hook, state):
+    """The class's hook (structgen's small hook language) evaluated on a reified state {name: value}."""
+    if not hook:
+        return True
+    if hook[0] == "le":
+        a, b = state.get(hook[1]), state.get(hook[2])
+        if a and b and a[0] == "int" and b[0] == "int":
+            return a[1] <= b[1]
+        return True
+    return hook[1] in state
+
+
+def post_state_at(h, k):
+    """Reified state after step k of the history."""
+    st = h.init
+    for s in h.steps[:k + 1]:
+        if s["post"] is not None:
+            st = s["post"]
+    return st
+
+
 def cast_has_hook(ctx, cast):
     return ctx.hook_of(cast["name"]) is not None
 
@@ -739,6 +780,22 @@ def cast_has_hook(ctx, cast):
 
 def gen_cast(rnd, name, ctx):
     c = S.gen_class(rnd, name, ctx.class_names()[:3], container_bias=0.65, max_depth=2)
+    if rnd.random() < 0.12:
+        # a subclass of an earlier generated class: inherited typed containers, inherited / overridden hook
+        bases = [b for b in ctx.asts if b["name"].startswith("M") and not b.get("base") and not b.get("immutable")]
+        if bases:
+            b = rnd.choice(bases)
+            taken = {fd["name"] for fd in b["fields"]}
+            c["base"] = b["name"]
+            if c.get("additional") is None:
+                c["additional"] = bool(rnd.random() < 0.3)     # _additional_properties is inherited: state it
+            c["fields"] = [fd for fd in c["fields"] if fd["name"] not in taken or rnd.random() < 0.3]
+            if c.get("required") is not None:
+                c["required"] = [n for n in c["required"] if any(fd["name"] == n for fd in c["fields"])]
+            if c.get("hook") and not all(any(fd["name"] == n for fd in c["fields"]) for n in c["hook"][1:]):
+                c["hook"] = None
+            if ctx.hook_of(b["name"]):
+                c["hook"] = None          # keep the inherited hook
     names = [fd["name"] for fd in c["fields"]]
     for fd in c["fields"]:
         if kind_of(fd["field"]) and rnd.random() < 0.08:
@@ -760,6 +817,24 @@ def gen_cast(rnd, name, ctx):
     return c
 
 
+CLASS_MODULE = "harness_c03_classes"
+
+
+def publish(ctx, name):
+    """Makes a generated class importable (pickle looks classes up by module and name)."""
+    import sys
+    import types
+    mod = sys.modules.get(CLASS_MODULE)
+    if mod is None:
+        mod = sys.modules[CLASS_MODULE] = types.ModuleType(CLASS_MODULE)
+    cls = ctx.classes[name]
+    try:
+        cls.__module__ = CLASS_MODULE
+        setattr(mod, name, cls)
+    except Exception:  # noqa
+        pass
+
+
 def add_class(ctx, cast):
     try:
         exec(S.class_src(cast), ctx.ns)
@@ -767,7 +842,31 @@ def add_class(ctx, cast):
         return False
     ctx.asts.append(cast)
     ctx.classes[cast["name"]] = ctx.ns[cast["name"]]
+    for c in S.Context.BASE:
+        publish(ctx, c["name"])
+    publish(ctx, cast["name"])
     return True
+
+
+ORIGINS = ["ctor"] * 14 + ["deepcopy", "deepcopy", "pickle", "pickle", "clone", "clone"]
+ORIGIN_SRC = {"deepcopy": "import copy\nx = copy.deepcopy(x)", "pickle": "import pickle\nx = pickle.loads(pickle.dumps(x))",
+              "clone": "x = x.shallow_clone_with_overrides()", "copy": "import copy\nx = copy.copy(x)"}
+
+
+def derive(x, origin):
+    """The starting instance of a history: the constructed one, or a valid instance obtained from it by one of the
+    library's / Python's copying routes (the wrappers of the copy must belong to the copy)."""
+    import copy
+    import pickle
+    if origin == "deepcopy":
+        return copy.deepcopy(x)
+    if origin == "pickle":
+        return pickle.loads(pickle.dumps(x))
+    if origin == "clone":
+        return x.shallow_clone_with_overrides()
+    if origin == "copy":
+        return copy.copy(x)
+    return x
 
 
 # ------------------------------------------------------------------ emission
@@ -1622,12 +1721,15 @@ def replay_obj(h, upto, ctx):
     ops = [s["op"] for s in h.steps[:upto + 1]]
     lines = [G.IMPORTS + (X.PRELUDE if X.needs_prelude(ops) else ""), ctx_source_for(ctx, h.cast["name"]),
              "x = %s(%s)" % (h.cast["name"], ", ".join("%s=%s" % (k, G.py_src(v)) for k, v in h.kwargs))]
+    if h.origin != "ctor":
+        lines.append(ORIGIN_SRC[h.origin])
     if h.mode == "reuse":
         lines.append("# handles obtained once and re-used: each x.<f> below refers to the object first read")
     for op in ops:
         lines.append("try:\n    %s\nexcept Exception as e:\n    print(type(e).__name__, e)" % op_src(op))
     lines.append("print(x)")
     return {"class": h.cast, "extra_classes": needed_classes(ctx, h.cast), "kwargs": h.kwargs, "ops": ops, "mode": h.mode,
+            "origin": h.origin,
             "python": "\n".join(lines) + "\n"}
 
 
@@ -1638,6 +1740,7 @@ def needed_classes(ctx, cast):
 
 def ctx_source_for(ctx, name):
     base = "".join(S.class_src(c) + "\n" for c in S.Context.BASE)
+    base += "".join(S.class_src(c) + "\n" for c in needed_classes(ctx, ctx.ast(name)))
     return base + S.class_src(ctx.ast(name))
 
 
@@ -1687,7 +1790,7 @@ def replay(obj):
         print("the class definition is rejected now")
         return 2
     h = run_history(None, obj["class"], ctx, tables, len(obj["ops"]), obj.get("mode", "reread"),
-                    ops=obj["ops"], kwargs=[tuple(kv) for kv in obj["kwargs"]])
+                    ops=obj["ops"], kwargs=[tuple(kv) for kv in obj["kwargs"]], origin=obj.get("origin", "ctor"))
     if h is None:
         print("the start instance cannot be built now")
         return 2
@@ -1850,6 +1953,7 @@ def run(rep, tier):
                 rep.stat(stream, "op:" + what)
                 rep.stat(stream, "outcome:" + outk)
                 rep.stat(stream, "mode:" + h.mode)
+                rep.stat(stream, "origin:" + h.origin)
     hs = [h for _, h in all_histories]
     if hs:
         h0 = [h for s, h in all_histories if s == "history"][:2]
@@ -1892,8 +1996,12 @@ def run(rep, tier):
                                 "same with this value)" % (op_src(op), G.py_src(post[op["name"]]) if op["name"] in post else "?",
                                                             G.field_src(fc)))
                     elif s["out"][0] == "ok":
+                        post_now = dict(post_state_at(h, first_coq))
                         if op["op"] == "del" and cast_has_hook(ctx, h.cast):
                             key = "C03/delitem/hook-not-run"
+                        elif h.origin == "pickle" and not hook_ok_py(ctx.hook_of(h.cast["name"]), post_now):
+                            # the instance came out of pickle.loads: its __validate__ is never run again
+                            key = "C03/unpickled-instance/hook-not-run"
                         else:
                             key = finding_key(op, "invalid-after-success", tables, ctag)
                         what = "%s returned normally and left an instance that is not valid per its declaration" % op_src(op)
@@ -1909,13 +2017,15 @@ def run(rep, tier):
         rep.obligation("spec-on-observed:validity-and-atomicity", True,
                        "%d histories, %d steps; %d histories with a failing step (reported above as findings)" % (len(hs), nsteps, nsp))
         mism = {hi: k for hi, k in r["mismatch"].items() if hi not in start_bad}
-        rep.obligation("correspondence:mstep", not mism, "%d steps in %d histories, %d histories with a mismatching step" % (
-            nsteps, len(hs), len(mism)))
+        unexplained = {hi: k for hi, k in mism.items() if not any(j == k for j, _, _ in hs[hi].py_findings)}
+        rep.obligation("correspondence:mstep", not unexplained,
+                       "%d steps in %d histories; %d histories where model and implementation differ on a step, %d of them on "
+                       "a step that is itself reported as a finding (a clause of C03 fails there: concrete input above)" % (
+                           nsteps, len(hs), len(mism), len(mism) - len(unexplained)))
         rep.obligation("theorem-instance:C03_history-on-observed", not r["contradicted"],
                        "%d histories satisfy the hypotheses; %d contradict the conclusion" % (len(r["hyps"]), len(r["contradicted"])))
         # a disagreement on a step where a clause of C03 fails is reported as that finding (concrete input);
         # what remains is a disagreement without a failing clause
-        unexplained = {hi: k for hi, k in mism.items() if not any(j == k for j, _, _ in hs[hi].py_findings)}
         if unexplained:
             hi = sorted(unexplained)[0]
             h, k = hs[hi], unexplained[hi]
